@@ -560,7 +560,9 @@ pub const DEFECT_KINDS: [&str; 17] = [
     "bad-algorithm-case",
 ];
 
-pub const BAD_ESCAPES: [&[u8]; 6] = [b"%", b"%4", b"%zz", b"%G0", b"%0g", b"/%"];
+pub const BAD_ESCAPES: [&[u8]; 16] = [
+    b"%", b"%4", b"%zz", b"%G0", b"%0g", b"%+f", b"%+A", b"%-1", b"%x1", b"%1x", b"%%41", b"%a\xc3\xa9", b"%\xc3\xa9", b"%\xe2\x82\xac", b"%4\xc3\xa9z", b"%.5",
+];
 
 /// Corrupt an ISO-8601 text so that R-iso8601 says *must reject*.
 pub fn corrupt_date(text: &str, t: &mut Tape) -> String {
@@ -642,7 +644,7 @@ pub fn apply_defect(kind: &'static str, m: &mut Message, cx: &FaultCtx, t: &mut 
             Rule::Path
         }
         "bad-query-escape" => {
-            let e = BAD_ESCAPES[t.below(5)];
+            let e = BAD_ESCAPES[t.below(BAD_ESCAPES.len())];
             let mut v = if t.chance(2) {
                 b"zz=".to_vec()
             } else {
@@ -768,6 +770,11 @@ pub fn apply_defect(kind: &'static str, m: &mut Message, cx: &FaultCtx, t: &mut 
             }
             let drop = req[t.below(req.len())].clone();
             m.auth.signed.retain(|s| *s != drop);
+            if t.chance(2) {
+                // a longer name that merely begins with the required one does not satisfy it
+                m.auth.signed.push(format!("{}-v2", drop));
+                m.auth.signed.sort();
+            }
             // re-sign: the signature over what *is* signed is correct
             let acct = cx.accounts.iter().find(|x| x.access_key == m.auth.access_key)?;
             let secret = acct.secret.clone();
